@@ -199,6 +199,7 @@ func cmdRun(args []string) int {
 	}
 	lr.P.trace = *trace
 	lr.P.solverKind = *solverK
+	gProgram = lr.P
 	r := harnessRun{Harness: *harness, Params: map[string]int{}}
 	for _, kv := range params {
 		p := strings.SplitN(kv, "=", 2)
@@ -303,6 +304,7 @@ func cmdCheck(args []string) int {
 		return 2
 	}
 	P := lr.P
+	gProgram = P
 	known := loadKnown()
 	var results []*runResult
 	exit := 0
@@ -321,6 +323,18 @@ func cmdCheck(args []string) int {
 		results = append(results, rr)
 		printRun(rr)
 		ex := rr.ex
+		if os.Getenv("VERIF_NO_VALIDATE") == "" && len(ex.valSamples) > 0 {
+			agree, bad := validateSamples(*prop, ex.valSamples)
+			ex.validated = agree
+			if len(bad) > 0 {
+				msg := fmt.Sprintf("translator validation: native run disagrees with the engine on witness inputs of a passing path (%s)", strings.Join(bad, " ; "))
+				fmt.Printf("INCONCLUSIVE property=%s: %s\n", *prop, msg)
+				problems = append(problems, msg)
+				if exit == 0 {
+					exit = 2
+				}
+			}
+		}
 		if r.Expect == "violation" {
 			// vacuity twin: must come back violated
 			if len(ex.violations) == 0 {
@@ -334,6 +348,7 @@ func cmdCheck(args []string) int {
 			continue
 		}
 		seenKnown := map[string]bool{}
+		reportedLabels := map[string]bool{}
 		reported := 0
 		for _, v := range ex.violations {
 			matched := false
@@ -350,9 +365,10 @@ func cmdCheck(args []string) int {
 			if matched {
 				continue
 			}
-			if reported >= 3 {
+			if reported >= 3 || reportedLabels[v.Label] {
 				continue
 			}
+			reportedLabels[v.Label] = true
 			path, confirmed, out := confirmViolation(*prop, v)
 			if confirmed {
 				reported++
@@ -426,6 +442,7 @@ func isFlagSet(fs *flag.FlagSet, name string) bool {
 func writeEvidence(prop, tier string, seed int, P *program, results []*runResult, wall time.Duration, nViol int, problems []string, pc propCfg) {
 	var states, transitions, asserts, queries, sat, unsat, unk, steps, infeasible int64
 	var solverT float64
+	validated := 0
 	var samples []interface{}
 	var runsDesc []map[string]interface{}
 	covers := map[string]int64{}
@@ -433,6 +450,7 @@ func writeEvidence(prop, tier string, seed int, P *program, results []*runResult
 	for _, rr := range results {
 		ex := rr.ex
 		states += ex.paths
+		validated += ex.validated
 		transitions += ex.decisions
 		asserts += ex.asserts
 		queries += ex.solver.queries
@@ -450,11 +468,11 @@ func writeEvidence(prop, tier string, seed int, P *program, results []*runResult
 				samples = append(samples, map[string]interface{}{"harness": rr.run.Harness, "path": s})
 			}
 		}
-		knownHit += len(ex.violations)
+		knownHit += int(ex.rawViolations)
 		runsDesc = append(runsDesc, map[string]interface{}{
 			"harness": rr.run.Harness, "bounds": rr.run.Params, "paths": ex.paths, "paths_ok": ex.okPaths,
 			"paths_infeasible": ex.infeasible, "paths_stopped_after_violation": ex.stoppedPaths,
-			"unwind_cap_hits": ex.unwinds, "inconclusive": ex.nInconcl, "violating_paths_raw": len(ex.violations),
+			"unwind_cap_hits": ex.unwinds, "inconclusive": ex.nInconcl, "violating_paths_raw": ex.rawViolations,
 			"assertions_checked": ex.asserts, "solver_queries": ex.solver.queries,
 			"solver_time_s": round3(ex.solver.time.Seconds()), "wall_s": round3(rr.wall.Seconds()),
 			"timed_out": ex.timedOut, "expect": rr.run.Expect, "note": rr.run.Note,
@@ -486,7 +504,7 @@ func writeEvidence(prop, tier string, seed int, P *program, results []*runResult
 		Coverage: map[string]interface{}{
 			"states":                        states,
 			"transitions":                   transitions,
-			"traces_validated_against_impl": 0,
+			"traces_validated_against_impl": validated,
 			"samples":                       samples,
 			"exhaustive":                    len(problems) == 0,
 			"rule": "states = completed symbolic paths of the real SSA (each covers every input satisfying its path condition); transitions = path decisions (solver-decided branches, concretisations, structural choices)",
